@@ -1,5 +1,6 @@
 """Per-property families, bounds, vacuity witnesses, classifier of counterexample causes."""
 import itertools
+import re
 import random
 import families as F
 from families import H
@@ -229,6 +230,10 @@ def classify(v):
     """name the mechanism of a counterexample from the interpreted trace (role, not shape)"""
     st = [s.split('::')[-1] if '<impl' not in s else s.split('>::')[-1] for s in v.get('stack', [])]
     clause = v['clause']
+    # a clause relabelled into another check (e.g. 'C03:orphan-not-collected' reported by C10) names the same mechanism
+    mrel = re.match(r'^C\d\d:(.*)$', clause)
+    if mrel and not mrel.group(1).startswith('memory'):
+        clause = mrel.group(1)
     tags = v.get('tags', [])
     script = v['script']
     has_same = any(op['op'] == 'adopt' and op['a'] == op['b'] for op in script['ops'])
